@@ -498,7 +498,7 @@ func (h *vC27History) observe(after string, witness func() map[string]any) bool 
 	}
 
 	// latest-state view, now or at a historical threshold
-	if h.rng.Intn(2) == 0 {
+	if h.rng.Intn(5) < 2 {
 		th, kind := now, "now"
 		if h.rng.Intn(2) == 0 && len(h.model.hist) > 0 {
 			e := h.model.hist[h.rng.Intn(len(h.model.hist))]
@@ -672,7 +672,10 @@ func vC27RunHistory(r *verifkit.Run, idx int, base string) (map[string]int, erro
 	// first input: the pledge output of genesis node 0 (a real unspent output)
 	h.next = common.Input{Hash: txs[0].PayloadHash(), Index: 0}
 
-	nOps := 50 + rng.Intn(90)
+	nOps := 30 + rng.Intn(70)
+	if r.Thorough() {
+		nOps = 50 + rng.Intn(90)
+	}
 	invalidBias := []int{25, 45, 65}[rng.Intn(3)]
 	applied, err := h.run(nOps, invalidBias)
 	if idx < 2 {
@@ -686,7 +689,7 @@ func vC27RunHistory(r *verifkit.Run, idx int, base string) (map[string]int, erro
 // TestVerif_C27: membership follows the pledge/accept/cancel/remove lifecycle.
 func TestVerif_C27(t *testing.T) {
 	r := verifkit.Start(t, "C27", "exploration")
-	r.SetRule("independent histories, each on a fresh BadgerStore with its own genesis (7..12 nodes): 50..139 node operations (pledge/accept/cancel/remove) with keys drawn from " +
+	r.SetRule("independent histories, each on a fresh BadgerStore with its own genesis (7..12 nodes): 30..99 (thorough 50..139) node operations (pledge/accept/cancel/remove) with keys drawn from " +
 		"fresh keys and from the signer/payee keys of pledging, accepted, removed and cancelled nodes, 25..65 % generated hostile; each operation is a structurally real " +
 		"transaction (keys in Extra, typed output) finalized through LockUTXOs+WriteTransaction+WriteSnapshot at strictly increasing snapshot times (1 ns .. 40 days apart); " +
 		"after every operation ReadAllNodes is compared with a reference state machine written from the statement, plus lifecycle invariants on the reported history; " +
@@ -695,7 +698,7 @@ func TestVerif_C27(t *testing.T) {
 	r.Assume("operation transactions are structurally well-formed (64/96-byte Extra, typed first output) but are not run through common.Validate: the durable checks of storage/badger_node.go are the code under observation")
 	r.Assume("the statement forbids transitions ('only'); operations the store refuses although the statement would allow them (removal while a pledge is pending) are counted, not flagged")
 
-	nh := r.N(30, 500)
+	nh := r.N(36, 500)
 	workers := 6
 	base := t.TempDir()
 	var mu sync.Mutex
